@@ -283,3 +283,62 @@ Theorem C02_hypotheses_fail_F14 : forall r apps,
   ~ apps_real (to_prog f14_prog) apps /\ ~ apps_valid (to_prog f14_prog) apps.
 Proof. exact f14_apps_not_real. Qed.
 Print Assumptions C02_hypotheses_fail_F14.
+
+(** ------------------------------------------------------------------ *)
+(** F16 (Proofs/F16Witness.v): the same for the spnout clause.  For the
+    faithful model of the unchanged code, the 22-state 4-colour program
+    [f16_prog] (text [f16_text]), cycle limit 1000: [run_prover] answers
+    spnout (steps 153, cycles 75, marks 1, rulapp 6: two recorded
+    applications of the inferred rule "R0 -2" in state 5 = F, the second on a
+    tape that has lost two zeros the machine pushed on the left, see
+    C03_application_refuted_F16); the cell-by-cell machine halts at slot
+    (20, 2) = U2 after 166 steps, and none of its 167 configurations is a
+    spin-out configuration: it never spins out. *)
+From BB Require Import F16Witness.
+
+(** the witness, in full *)
+Theorem C02_F16_witness :
+  from_str f16_text = Some f16_prog /\
+  run_prover f16_prog 1000 = Ok (mkRes spnout 153 75 1 6 [(5, 134)] None) /\
+  halts_at (to_prog f16_prog) init_config 166 (20, 2) /\
+  (forall n sl, halts_at (to_prog f16_prog) init_config n sl -> n = 166%nat /\ sl = (20, 2)) /\
+  (forall n, (166 < n)%nat -> tm_steps (to_prog f16_prog) n init_config = None) /\
+  never_spins_out (to_prog f16_prog) init_config /\
+  (forall n, ~ spins_out_at (to_prog f16_prog) init_config n).
+Proof.
+  exact (conj f16_prog_text (conj f16_model_run (conj f16_real_halt
+          (conj f16_real_halt_only (conj f16_real_no_config_after
+          (conj f16_real_never_spins_out f16_real_no_spinout_event)))))).
+Qed.
+Print Assumptions C02_F16_witness.
+
+(** spnout is claimed; the real machine halts and never spins out: the
+    negation of the spnout clause of [C02_outcome_sound_given_rules] /
+    [C02_outcome_sound_given_real], for a run of the model *)
+Theorem C02_verdict_refuted_F16 :
+  exists comp lim r apps n' sl',
+    run_prover_trace comp lim = Ok (r, apps) /\ r_result r = spnout /\
+    halts_at (to_prog comp) init_config n' sl' /\
+    never_spins_out (to_prog comp) init_config /\
+    ~ (exists n q z, tm_steps (to_prog comp) n init_config = Some (q, z) /\
+         spinout_cfg (to_prog comp) (q, z) /\
+         spins_out_at (to_prog comp) init_config n /\ marks_of z = r_marks r).
+Proof. exact verdict_refuted_F16. Qed.
+Print Assumptions C02_verdict_refuted_F16.
+
+(** so the spnout clause, stated without hypothesis on the applications, is false *)
+Theorem C02_outcome_unconditional_refuted_F16 :
+  ~ (forall comp lim r apps,
+       run_prover_trace comp lim = Ok (r, apps) -> r_result r = spnout ->
+       exists n q z, tm_steps (to_prog comp) n init_config = Some (q, z) /\
+         spinout_cfg (to_prog comp) (q, z) /\
+         spins_out_at (to_prog comp) init_config n /\ marks_of z = r_marks r).
+Proof. exact outcome_unconditional_refuted_F16. Qed.
+Print Assumptions C02_outcome_unconditional_refuted_F16.
+
+(** and both hypotheses of the conditional theorems fail for that run *)
+Theorem C02_hypotheses_fail_F16 : forall r apps,
+  run_prover_trace f16_prog 1000 = Ok (r, apps) ->
+  ~ apps_real (to_prog f16_prog) apps /\ ~ apps_valid (to_prog f16_prog) apps.
+Proof. exact f16_apps_not_real. Qed.
+Print Assumptions C02_hypotheses_fail_F16.
